@@ -20,6 +20,8 @@ type c08Step struct {
 	Encr  int         `json:"encr"`
 	Integ int         `json:"integ"` // 3 = no integrity transform
 	Nonce model.Bytes `json:"nonces"`
+	// SPI of the Child SA object (bookkeeping of the caller; the keys do not depend on it)
+	SPI uint32 `json:"spi,omitempty"`
 }
 
 type c08In struct {
@@ -61,6 +63,10 @@ func c08NewSA(in c08In) (*security.IKESAKey, []byte, error) {
 	sa.SK_d = append([]byte(nil), in.SKd...)
 	sa.Prf_d = sa.PrfInfo.Init(sa.SK_d)
 	if in.OnlyPrfObject {
+		// the caller keyed the PRF object from a scratch buffer, which it wipes afterwards (crypto/hmac keeps its own copy of the key)
+		for i := range sa.SK_d {
+			sa.SK_d[i] = 0
+		}
 		sa.SK_d = nil
 	}
 	return sa, in.SKd, nil
@@ -81,8 +87,20 @@ var c08History = probe.Define("C08", "history", func(t *rapid.T) c08In {
 	in.EmptyKeyFields = rapid.IntRange(0, 3).Draw(t, "emptykeyfields") == 3
 	n := gen.Len(t, "nsteps", 1, 200, 1, 2, 100, 200)
 	for i := 0; i < n; i++ {
-		in.Steps = append(in.Steps, c08Step{Encr: rapid.IntRange(0, 2).Draw(t, "encr"), Integ: rapid.IntRange(0, 3).Draw(t, "integ"),
-			Nonce: gen.BytesLen(t, "nonces", 0, 600, 0, 1, 32, 64, 256, 257, 272, 273, 512, 600)})
+		st := c08Step{Encr: rapid.IntRange(0, 2).Draw(t, "encr"), Integ: rapid.IntRange(0, 3).Draw(t, "integ"),
+			Nonce: gen.BytesLen(t, "nonces", 0, 600, 0, 1, 32, 64, 256, 257, 272, 273, 512, 600)}
+		switch rapid.IntRange(0, 5).Draw(t, "spiclass") {
+		case 3:
+			st.SPI = rapid.Uint32().Draw(t, "spi")
+		case 4:
+			st.SPI = 0xc0ffee01 // several Child SAs of the history carry the same SPI (a re-keyed SA, inbound and outbound halves)
+		case 5:
+			st.SPI = uint32(rapid.IntRange(1, 3).Draw(t, "smallspi"))
+		}
+		if i > 0 && rapid.IntRange(0, 3).Draw(t, "same-suite-as-before") == 3 {
+			st.Encr, st.Integ = in.Steps[i-1].Encr, in.Steps[i-1].Integ // same transforms, other nonces
+		}
+		in.Steps = append(in.Steps, st)
 	}
 	return in
 }, func(in c08In) probe.Outcome {
@@ -142,6 +160,7 @@ var c08History = probe.Define("C08", "history", func(t *rapid.T) c08In {
 		if in.NegotiateFirst {
 			c = negotiated[i]
 		}
+		c.SPI = st.SPI
 		if in.EmptyKeyFields {
 			c.InitiatorToResponderEncryptionKey, c.InitiatorToResponderIntegrityKey = []byte{}, []byte{}
 			c.ResponderToInitiatorEncryptionKey, c.ResponderToInitiatorIntegrityKey = []byte{}, []byte{}
